@@ -127,8 +127,13 @@ Ltac fwall := repeat match goal with
   | H : consume_quote _ _ = Ok _ |- _ => apply sfx_consume_quote in H; [|solve [sside]]
   end.
 
-Lemma sfx_parse_attribute s s' : parse_attribute text s = Ok s' -> sfx s -> sfx s'.
+Lemma sfx_parse_attribute s p l s' : parse_attribute text s = Ok (p, l, s') -> sfx s -> sfx s'.
 Proof. unfold parse_attribute. intros H Hs. usteps. fwall. assumption. Qed.
+
+Lemma sfx_parse_pseudo_attribute name s s' : parse_pseudo_attribute text name s = Ok s' -> sfx s -> sfx s'.
+Proof.
+  unfold parse_pseudo_attribute. intros H Hs. usteps. eapply sfx_parse_attribute; eassumption.
+Qed.
 
 Lemma sfx_decl_consume_spaces s s' : decl_consume_spaces text s = Ok s' -> sfx s -> sfx s'.
 Proof. unfold decl_consume_spaces. intros H Hs. usteps; sside. Qed.
@@ -141,7 +146,7 @@ Proof.
   unfold parse_declaration. intros H Hs. usteps;
   repeat first [progress fwall
     | match goal with
-      | H : parse_attribute _ _ = Ok _ |- _ => apply sfx_parse_attribute in H; [|solve [sside]]
+      | H : parse_pseudo_attribute _ _ _ = Ok _ |- _ => apply sfx_parse_pseudo_attribute in H; [|solve [sside]]
       | H : decl_consume_spaces _ _ = Ok _ |- _ =>
         apply sfx_decl_consume_spaces in H; [|solve [sside]]
       end]; sside.
